@@ -62,6 +62,25 @@ func (c *Ctx) isStorerWriteOf(recv ssa.Value) func(ssa.Instruction) bool {
 	}
 }
 
+// nonErrorReturn is the goal "a return that does not certainly hand back an
+// error", decided on the path walked when the returned error is a merged
+// value (what inlining a helper with several `return …, err` leaves).
+func (c *Ctx) nonErrorReturn(i ssa.Instruction, pv PathView) bool {
+	ret, ok := i.(*ssa.Return)
+	if !ok {
+		return false
+	}
+	if len(ret.Results) > 0 {
+		ev := ret.Results[len(ret.Results)-1]
+		if IsErrorType(ev.Type()) {
+			if isNil, known := pv.NilKnown(ev); known {
+				return isNil
+			}
+		}
+	}
+	return !c.isErrorExit(ret)
+}
+
 // isErrorExit reports whether ret certainly returns a non-nil error: a fact
 // says its error operand is non-nil, or it is freshly constructed.
 func (c *Ctx) isErrorExit(ret *ssa.Return) bool {
@@ -123,10 +142,7 @@ func (c *Ctx) mustSaveAfterPut(rule string, fn *ssa.Function, except map[string]
 		}
 		n++
 		isWrite := c.isStorerWriteOf(p.Recv)
-		q := PathQuery{From: p.Call.(ssa.Instruction), Cut: isWrite, Goal: func(i ssa.Instruction) bool {
-			ret, ok := i.(*ssa.Return)
-			return ok && !c.isErrorExit(ret)
-		}}
+		q := PathQuery{From: p.Call.(ssa.Instruction), Cut: isWrite, GoalP: c.nonErrorReturn}
 		path := q.Find()
 		if path == nil {
 			r.Ok(rule, name, construct, pos, "followed by a storer write of the same user on every non-error path")
@@ -149,10 +165,7 @@ func (c *Ctx) mustSaveAfterPut(rule string, fn *ssa.Function, except map[string]
 						return false
 					}
 					return HasOrigin(c.Origins(Arg(ic, idx)), func(o Origin) bool { return o.V == call.Value() })
-				}, Goal: func(i ssa.Instruction) bool {
-					ret, ok := i.(*ssa.Return)
-					return ok && !c.isErrorExit(ret)
-				}}
+				}, GoalP: c.nonErrorReturn}
 				if cp := cq.Find(); cp != nil {
 					okAll = false
 					bad = append(bad, c.P.DescribePath(append(path, cp...))...)
@@ -726,6 +739,28 @@ func (c *Ctx) storesField(field string, pred func(*ssa.Store) bool) []*ssa.Funct
 		}
 	}
 	return out
+}
+
+// KeepRole tells the normaliser which helper functions, although unknown to
+// the rules by name, must stay functions because a rule looks for them by
+// what they do: the one function that appends to both event queues.
+func KeepRole(f *ssa.Function) bool {
+	stores := func(field string) bool {
+		for _, b := range f.Blocks {
+			for _, in := range b.Instrs {
+				if st, ok := in.(*ssa.Store); ok {
+					if fa, ok := st.Addr.(*ssa.FieldAddr); ok && fieldName(fa) == field {
+						return true
+					}
+				}
+			}
+		}
+		return false
+	}
+	if strings.HasSuffix(f.Name(), "NewResponse") || strings.HasSuffix(f.Name(), "LoadClientState") {
+		return false
+	}
+	return stores("sessionStateEvents") && stores("cookieStateEvents")
 }
 
 // flushFunc: the function that latches hasWritten=true (putClientState).
